@@ -498,7 +498,7 @@ Lemma init_inv cf : 0 <= cmax cf -> Inv cf [] init [].
 Proof.
   intros H. split.
   - constructor; cbn; auto; try constructor; try reflexivity; try lia.
-  - constructor; cbn; auto; try constructor; try lia; try (intros _ Hw; contradiction).
+  - constructor; cbn; try (intros _ Hw; contradiction); auto; try constructor; try lia.
 Qed.
 
 Lemma run_inv cf ls : forall st tr st' ob,
@@ -520,4 +520,429 @@ Proof.
   - destruct (run cf st b); reflexivity.
   - destruct (step cf st l) as [st1 ob1]. rewrite IH. destruct (run cf st1 a) as [st2 ob2].
     destruct (run cf st2 b) as [st3 ob3]. now rewrite app_assoc.
+Qed.
+
+(* ---- what each piece of code can emit -------------------------------------------------------------- *)
+Definition rel_ob (o : obs) : Prop :=
+  match o with ODropped _ | OClose _ | OSpawn _ => True | OError _ k => k = EServiceClosed | _ => False end.
+Definition get_ob (o : obs) : Prop := match o with OClose _ | OCreate _ => True | _ => False end.
+
+Lemma flush_obs c : forall m, snd (flush c m) = map OClose c.
+Proof.
+  induction c as [|s r IH]; intros m; cbn; auto. specialize (IH ((s, 4) :: m)).
+  destruct (flush r ((s, 4) :: m)) as [m' ob]. cbn in *. now rewrite IH.
+Qed.
+
+Lemma close_pool_obs st : snd (close_pool st) = map OClose (cache st) ++ fail_obs (waiters st).
+Proof.
+  unfold close_pool. pose proof (flush_obs (cache st) (sst st)) as F.
+  destruct (flush (cache st) (sst st)) as [m' ob]. cbn in *. now rewrite F.
+Qed.
+
+Lemma fail_obs_kind ws : Forall rel_ob (fail_obs ws).
+Proof.
+  induction ws as [|[c a] r IH]; cbn; [constructor|]. destruct a; cbn; auto. constructor; auto. reflexivity.
+Qed.
+
+Lemma map_close_kind l : Forall rel_ob (map OClose l).
+Proof. induction l; cbn; constructor; auto. exact I. Qed.
+
+Lemma release_obs cf s st : Forall rel_ob (snd (release cf s st)).
+Proof.
+  unfold release. destruct (pstate st =? 4). { cbn. repeat constructor. }
+  destruct (sstate st s =? 4).
+  { pose proof (close_pool_obs (set_size (size st - 1) st)) as Hc.
+    destruct (close_pool (set_size (size st - 1) st)) as [st2 ob]. cbn in *. constructor; [exact I|].
+    rewrite Hc. apply Forall_app. split; [apply map_close_kind|apply fail_obs_kind]. }
+  destruct (waiters st). 2:{ cbn. repeat constructor. }
+  destruct (size st <=? cmin cf); cbn; repeat constructor.
+Qed.
+
+Lemma release_nsink cf s st : nsink (fst (release cf s st)) = nsink st /\ pq (fst (release cf s st)) = pq st \/
+                              nsink (fst (release cf s st)) = nsink st /\ pq (fst (release cf s st)) = pq st ++ [s].
+Proof.
+  unfold release. destruct (pstate st =? 4). { left. cbn. auto. }
+  destruct (sstate st s =? 4).
+  { destruct (close_pool (set_size (size st - 1) st)) as [st2 ob] eqn:E.
+    destruct (close_pool_fields _ _ _ E) as (_ & _ & _ & _ & Eq & _ & _ & _ & En). left. cbn. sset. auto. }
+  destruct (waiters st). 2:{ right. cbn. auto. }
+  destruct (size st <=? cmin cf); left; cbn; auto.
+Qed.
+
+Lemma get_obs cf who st g st' ob :
+  get cf who st = (g, st', ob) ->
+  Forall get_ob ob /\ nsink st <= nsink st' /\
+  (forall s, In (OCreate s) ob -> s = nsink st /\ nsink st' = nsink st + 1).
+Proof.
+  unfold get. intros H.
+  pose proof (dequeue_spec (cache st) (sst st) (size st)) as D.
+  destruct (dequeue (cache st) (sst st) (size st)) as [[[[o c'] m'] sz'] ob0].
+  destruct D as (dead & _ & _ & _ & Ho).
+  assert (Hk : Forall get_ob ob0). { subst ob0. clear. induction dead; cbn; constructor; auto. exact I. }
+  assert (Hnc : forall s, ~ In (OCreate s) ob0).
+  { subst ob0. clear. intros s H. apply in_map_iff in H as (x & E & _). discriminate. }
+  destruct o as [s|].
+  - inversion H; subst; clear H. sset. splits; auto; try lia. intros s0 Hi. now apply Hnc in Hi.
+  - sset. destruct (sz' <? cmax cf) eqn:E1 in H.
+    2:{ assert (st' = set_size sz' (set_sst m' (set_cache c' st)) \/
+                st' = set_gq (zlen (waiters st) + 1) (set_size sz' (set_sst m' (set_cache c' st)))) as Hs.
+        { destruct (zlen (waiters st) + 1 >? cmaxq cf); inversion H; auto. }
+        assert (ob = ob0) by (destruct (zlen (waiters st) + 1 >? cmaxq cf); inversion H; auto). subst ob.
+        splits; auto.
+        - destruct Hs as [-> | ->]; sset; lia.
+        - intros s0 Hi. now apply Hnc in Hi. }
+    inversion H; subst; clear H. sset. splits; try lia.
+    + apply Forall_app. split; auto. constructor; [exact I|constructor].
+    + intros s0 Hi. apply in_app_or in Hi as [Hi|[Hi|[]]]; [now apply Hnc in Hi|]. inversion Hi. auto.
+Qed.
+
+Definition no_create (o : obs) : Prop := match o with OCreate _ => False | _ => True end.
+
+Lemma rel_no_create l : Forall rel_ob l -> forall s, ~ In (OCreate s) l.
+Proof. intros F s H. rewrite Forall_forall in F. apply F in H. exact H. Qed.
+
+Lemma open_result_nsink st : nsink (fst (open_result st)) = nsink st /\ forall s, ~ In (OCreate s) (snd (open_result st)).
+Proof.
+  unfold open_result. destruct (pstate st =? 4); cbn; split; auto; intros s [H|[]]; discriminate.
+Qed.
+
+Lemma process_queue_created cf s st :
+  nsink (fst (process_queue cf s st)) = nsink st /\ forall x, ~ In (OCreate x) (snd (process_queue cf s st)).
+Proof.
+  unfold process_queue. destruct (waiters st) as [|w ws] eqn:Ew.
+  { split; [destruct (release_nsink cf s st) as [[E _]|[E _]]; exact E|apply rel_no_create, release_obs]. }
+  rewrite <- Ew. destruct (pq_loop (waiters st)) as [[c|] ws'].
+  - cbn. split; auto. intros x [H|[]]. discriminate.
+  - split.
+    + destruct (release_nsink cf s (set_gq (zlen ws') (set_waiters ws' st))) as [[E _]|[E _]]; rewrite E; reflexivity.
+    + apply rel_no_create, release_obs.
+Qed.
+
+Lemma step_created cf st l st' ob :
+  step cf st l = (st', ob) ->
+  nsink st <= nsink st' /\ forall s, In (OCreate s) ob -> s = nsink st /\ nsink st' = nsink st + 1.
+Proof.
+  intros H. destruct l as [|s|c|c|k|s v| |]; cbn [step] in H.
+  - destruct (get cf (Some (ncall st)) (set_ncall (ncall st + 1) st)) as [[g st1] ob1] eqn:Eg.
+    destruct (get_obs _ _ _ _ _ _ Eg) as (_ & Hn & Hc). sset.
+    destruct g; inversion H; subst st' ob; clear H; sset; split; auto; intros s0 Hi;
+      try (apply in_app_or in Hi as [Hi|[Hi|[]]]; [|discriminate]); auto.
+  - destruct (extract _ (opening st)) as [[[s' [c|]] op']|].
+    + inversion H; subst; clear H. sset. split; [lia|]. intros s0 [Hi|[]]. discriminate.
+    + pose proof (release_nsink cf s (set_opening op' st)) as Rn.
+      pose proof (release_obs cf s (set_opening op' st)) as Ro.
+      destruct (release cf s (set_opening op' st)) as [st2 ob2].
+      pose proof (open_result_nsink st2) as [On Oc]. destruct (open_result st2) as [st3 ob3].
+      inversion H; subst; clear H. cbn in *. sset.
+      assert (nsink st2 = nsink st) by (destruct Rn as [[E _]|[E _]]; exact E).
+      split; [lia|]. intros s0 Hi. apply in_app_or in Hi as [Hi|Hi]; [now apply (rel_no_create _ Ro) in Hi|now apply Oc in Hi].
+    + inversion H; subst. split; [lia|]. intros s0 [].
+  - destruct (extract _ (lent st)) as [[[s c'] le']|].
+    2:{ inversion H; subst. split; [lia|]. intros s0 []. }
+    pose proof (release_nsink cf s (set_lent le' st)) as Rn.
+    pose proof (release_obs cf s (set_lent le' st)) as Ro.
+    destruct (release cf s (set_lent le' st)) as [st1 ob1]. inversion H; subst; clear H. cbn in *. sset.
+    assert (nsink st' = nsink st) by (destruct Rn as [[E _]|[E _]]; exact E).
+    split; [lia|]. intros s0 Hi. apply in_app_or in Hi as [Hi|[Hi|[]]]; [now apply (rel_no_create _ Ro) in Hi|discriminate].
+  - destruct (existsb _ (waiters st)); inversion H; subst; sset; (split; [lia|]); intros s0 Hi; cbn in Hi;
+      intuition discriminate.
+  - destruct (extract_nth k (pq st)) as [[s pq']|].
+    2:{ inversion H; subst. split; [lia|]. intros s0 []. }
+    pose proof (process_queue_created cf s (set_pq pq' st)) as [Pn Pc]. rewrite H in *. cbn in *. sset.
+    split; [lia|]. intros s0 Hi. now apply Pc in Hi.
+  - inversion H; subst. sset. split; [lia|]. intros s0 [].
+  - destruct (close_pool_fields _ _ _ H) as (_ & _ & _ & _ & _ & _ & _ & _ & En).
+    pose proof (close_pool_obs st) as Ho. rewrite H in Ho. cbn in Ho. split; [lia|]. intros s0 Hi. subst ob.
+    apply in_app_or in Hi as [Hi|Hi].
+    + apply in_map_iff in Hi as (x & E & _). discriminate.
+    + apply (rel_no_create _ (fail_obs_kind (waiters st))) in Hi. contradiction.
+  - destruct (get cf None st) as [[g st1] ob1] eqn:Eg.
+    destruct (get_obs _ _ _ _ _ _ Eg) as (_ & Hn & Hc).
+    destruct g as [s| | |].
+    + pose proof (release_nsink cf s st1) as Rn. pose proof (release_obs cf s st1) as Ro.
+      destruct (release cf s st1) as [st2 ob2].
+      pose proof (open_result_nsink st2) as [On Oc]. destruct (open_result st2) as [st3 ob3].
+      inversion H; subst; clear H. cbn in *.
+      assert (nsink st2 = nsink st1) by (destruct Rn as [[E _]|[E _]]; exact E).
+      split; [lia|]. intros s0 Hi. apply in_app_or in Hi as [Hi|Hi].
+      * destruct (Hc _ Hi). split; lia.
+      * apply in_app_or in Hi as [Hi|Hi]; [now apply (rel_no_create _ Ro) in Hi|now apply Oc in Hi].
+    + inversion H; subst; clear H. auto.
+    + pose proof (open_result_nsink (release_noop st1)) as [On Oc]. destruct (open_result (release_noop st1)) as [st3 ob3].
+      inversion H; subst; clear H. cbn in *. sset. split; [lia|]. intros s0 Hi. apply in_app_or in Hi as [Hi|Hi].
+      * destruct (Hc _ Hi). split; lia.
+      * now apply Oc in Hi.
+    + pose proof (open_result_nsink (release_noop st1)) as [On Oc]. destruct (open_result (release_noop st1)) as [st3 ob3].
+      inversion H; subst; clear H. cbn in *. sset. split; [lia|]. intros s0 Hi. apply in_app_or in Hi as [Hi|Hi].
+      * destruct (Hc _ Hi). split; lia.
+      * now apply Oc in Hi.
+Qed.
+
+Lemma run_created cf ls : forall st tr st' ob,
+  run cf st ls = (st', ob) -> (forall s, In (OCreate s) tr -> 0 <= s < nsink st) -> 0 <= nsink st ->
+  forall s, In (OCreate s) (tr ++ ob) -> 0 <= s < nsink st'.
+Proof.
+  induction ls as [|l r IH]; intros st tr st' ob H Hc Hn; cbn in H.
+  - inversion H; subst. rewrite app_nil_r. exact Hc.
+  - destruct (step cf st l) as [st1 ob1] eqn:E1. destruct (run cf st1 r) as [st2 ob2] eqn:E2.
+    inversion H; subst st' ob; clear H. rewrite app_assoc. destruct (step_created _ _ _ _ _ E1) as [Hm Hs].
+    eapply IH; eauto; try lia. intros s Hi. apply in_app_or in Hi as [Hi|Hi].
+    + apply Hc in Hi. lia.
+    + destruct (Hs _ Hi). lia.
+Qed.
+
+(* ---- one-step facts: queue bound ------------------------------------------------------------------- *)
+Lemma req_full_fails cf st st' ob :
+  cache st = [] -> cmax cf <= size st -> cmaxq cf < zlen (waiters st) + 1 ->
+  step cf st Req = (st', ob) ->
+  ob = [OError (ncall st) EMaxWaiters] /\ waiters st' = waiters st /\ lent st' = lent st /\ size st' = size st
+  /\ opening st' = opening st.
+Proof.
+  intros Hc Hs Hq H. cbn [step] in H. unfold get in H. sset. rewrite Hc in H. cbn [dequeue] in H. sset.
+  replace (size st <? cmax cf) with false in H by (symmetry; apply Z.ltb_ge; lia).
+  replace (zlen (waiters st) + 1 >? cmaxq cf) with true in H by (symmetry; rewrite Z.gtb_ltb; apply Z.ltb_lt; lia).
+  inversion H; subst; clear H. sset. splits; auto.
+Qed.
+
+Lemma req_room_enqueues cf st st' ob :
+  cache st = [] -> cmax cf <= size st -> zlen (waiters st) + 1 <= cmaxq cf ->
+  step cf st Req = (st', ob) ->
+  ob = [] /\ waiters st' = waiters st ++ [(ncall st, true)] /\ lent st' = lent st /\ size st' = size st
+  /\ opening st' = opening st.
+Proof.
+  intros Hc Hs Hq H. cbn [step] in H. unfold get in H. sset. rewrite Hc in H. cbn [dequeue] in H. sset.
+  replace (size st <? cmax cf) with false in H by (symmetry; apply Z.ltb_ge; lia).
+  replace (zlen (waiters st) + 1 >? cmaxq cf) with false in H by (symmetry; rewrite Z.gtb_ltb; apply Z.ltb_ge; lia).
+  inversion H; subst; clear H. sset. splits; auto.
+Qed.
+
+(* ---- one-step facts: hand-off ---------------------------------------------------------------------- *)
+Definition dead_w (w : Z * bool) : Prop := snd w = false.
+
+Lemma pq_loop_live pre c post : Forall dead_w pre -> pq_loop (pre ++ (c, true) :: post) = (Some c, post).
+Proof. induction pre as [|[x a] r IH]; cbn; intros F; auto. inversion F as [|? ? Hd Hr]; subst. unfold dead_w in Hd; cbn in Hd; subst a. auto. Qed.
+
+Lemma pq_loop_dead ws : Forall dead_w ws -> pq_loop ws = (None, []).
+Proof. induction ws as [|[x a] r IH]; cbn; intros F; auto. inversion F as [|? ? Hd Hr]; subst. unfold dead_w in Hd; cbn in Hd; subst a. auto. Qed.
+
+Lemma handoff_live cf st k s pq' pre c post st' ob :
+  extract_nth k (pq st) = Some (s, pq') ->
+  waiters st = pre ++ (c, true) :: post -> Forall dead_w pre ->
+  step cf st (PQ k) = (st', ob) ->
+  ob = [OForward c s] /\ lent st' = lent st ++ [(s, c)] /\ waiters st' = post /\ size st' = size st /\ pq st' = pq'
+  /\ cache st' = cache st /\ pstate st' = pstate st.
+Proof.
+  intros Ex Ew F H. cbn [step] in H. rewrite Ex in H. unfold process_queue in H. sset.
+  destruct (waiters st) as [|w0 ws0] eqn:E0. { destruct pre; discriminate. }
+  rewrite Ew, (pq_loop_live _ _ _ F) in H. inversion H; subst; clear H. sset. splits; auto.
+Qed.
+
+Lemma handoff_all_dead cf st k s pq' st' ob :
+  extract_nth k (pq st) = Some (s, pq') -> Forall dead_w (waiters st) ->
+  pstate st <> 4 -> sstate st s <> 4 ->
+  step cf st (PQ k) = (st', ob) ->
+  waiters st' = [] /\ pq st' = pq' /\ lent st' = lent st /\
+  (size st <= cmin cf -> ob = [] /\ cache st' = cache st ++ [s] /\ size st' = size st) /\
+  (cmin cf < size st -> ob = [OClose s] /\ cache st' = cache st /\ size st' = size st - 1).
+Proof.
+  intros Ex F Hp Hs H. cbn [step] in H. rewrite Ex in H. unfold process_queue in H. sset.
+  assert (R : forall stx, waiters stx = [] -> pstate stx = pstate st -> sstate stx s = sstate st s ->
+              size stx = size st -> cache stx = cache st -> pq stx = pq' -> lent stx = lent st ->
+              release cf s stx = (st', ob) ->
+              waiters st' = [] /\ pq st' = pq' /\ lent st' = lent st /\
+              (size st <= cmin cf -> ob = [] /\ cache st' = cache st ++ [s] /\ size st' = size st) /\
+              (cmin cf < size st -> ob = [OClose s] /\ cache st' = cache st /\ size st' = size st - 1)).
+  { intros stx E1 E2 E3 E4 E5 E6 E7 Hr. unfold release in Hr. rewrite E1, E2, E3, E4 in Hr.
+    replace (pstate st =? 4) with false in Hr by (symmetry; now apply Z.eqb_neq).
+    replace (sstate st s =? 4) with false in Hr by (symmetry; now apply Z.eqb_neq).
+    destruct (size st <=? cmin cf) eqn:Em.
+    - apply Z.leb_le in Em. inversion Hr; subst; clear Hr. sset.
+      splits; auto; try lia; intros; splits; auto; try lia; try congruence.
+    - apply Z.leb_gt in Em. unfold discard in Hr. inversion Hr; subst; clear Hr. sset.
+      splits; auto; try lia; intros; splits; auto; try lia; try congruence. }
+  destruct (waiters st) as [|w0 ws0] eqn:E0.
+  - apply (R (set_pq pq' st)); sset; auto.
+  - rewrite <- E0 in *. rewrite (pq_loop_dead _ F) in H. apply (R (set_gq (zlen (@nil (Z * bool))) (set_waiters [] (set_pq pq' st)))); sset; auto.
+Qed.
+
+Lemma release_spawns cf st c s c' le' st' ob :
+  extract (fun e : Z * Z => snd e =? c) (lent st) = Some ((s, c'), le') ->
+  pstate st <> 4 -> sstate st s <> 4 -> waiters st <> [] ->
+  step cf st (Resp c) = (st', ob) ->
+  ob = [OSpawn s; ODone c] /\ pq st' = pq st ++ [s] /\ size st' = size st /\ waiters st' = waiters st /\ lent st' = le'.
+Proof.
+  intros Ex Hp Hs Hw H. cbn [step] in H. rewrite Ex in H. unfold release in H. sset.
+  replace (pstate st =? 4) with false in H by (symmetry; now apply Z.eqb_neq).
+  change (sstate (set_lent le' st) s) with (sstate st s) in H.
+  replace (sstate st s =? 4) with false in H by (symmetry; now apply Z.eqb_neq).
+  destruct (waiters st) as [|w ws] eqn:E; [contradiction|]. inversion H; subst; clear H. sset. splits; auto.
+Qed.
+
+(* ---- one-step facts: closing ----------------------------------------------------------------------- *)
+Lemma dead_release_closes cf st c s c' le' st' ob :
+  extract (fun e : Z * Z => snd e =? c) (lent st) = Some ((s, c'), le') ->
+  pstate st <> 4 -> sstate st s = 4 ->
+  step cf st (Resp c) = (st', ob) ->
+  pstate st' = 4 /\ ob = ODropped s :: (map OClose (cache st) ++ fail_obs (waiters st)) ++ [ODone c]
+  /\ waiters st' = kill (waiters st) /\ size st' = size st - 1 /\ lent st' = le'.
+Proof.
+  intros Ex Hp Hs H. cbn [step] in H. rewrite Ex in H. unfold release in H. sset.
+  replace (pstate st =? 4) with false in H by (symmetry; now apply Z.eqb_neq).
+  change (sstate (set_lent le' st) s) with (sstate st s) in H. rewrite Hs in H. cbn [Z.eqb Pos.eqb] in H.
+  pose proof (close_pool_obs (set_size (size st - 1) (set_lent le' st))) as Ho.
+  destruct (close_pool (set_size (size st - 1) (set_lent le' st))) as [st2 ob2] eqn:Ec.
+  destruct (close_pool_fields _ _ _ Ec) as (Fp & Fw & Fl & _ & _ & _ & Fs & _). cbn [snd] in Ho. sset.
+  inversion H; subst; clear H. sset. splits; auto.
+Qed.
+
+Lemma in_fail_obs w k ws : In (OError w k) (fail_obs ws) <-> k = EServiceClosed /\ In (w, true) ws.
+Proof.
+  induction ws as [|[x a] r IH]; cbn.
+  - tauto.
+  - destruct a; cbn; rewrite ?IH; split.
+    + intros [H|H]; [inversion H; subst; auto|]. tauto.
+    + intros [-> [H|H]]; [inversion H; auto|]. tauto.
+    + intros [-> H]. split; auto.
+    + intros [-> [H|H]]; [discriminate|]. auto.
+Qed.
+
+Lemma fail_obs_errors ws : forall o, In o (fail_obs ws) -> exists w, o = OError w EServiceClosed /\ In (w, true) ws.
+Proof.
+  induction ws as [|[x a] r IH]; cbn; intros o H; [contradiction|]. destruct a; cbn in H.
+  - destruct H as [<-|H]; eauto. destruct (IH _ H) as (w & E & Hi). eauto.
+  - destruct (IH _ H) as (w & E & Hi). eauto.
+Qed.
+
+Lemma fail_obs_nodup ws : NoDup (map fst ws) -> NoDup (fail_obs ws).
+Proof.
+  induction ws as [|[x a] r IH]; cbn; intros N; [constructor|]. inversion N; subst. destruct a; cbn; auto.
+  constructor; auto. intros H. apply in_fail_obs in H as [_ H]. apply H1. apply in_map_iff. exists (x, true). auto.
+Qed.
+
+Lemma fail_obs_kill ws : fail_obs (kill ws) = [].
+Proof. induction ws as [|[x a] r IH]; cbn; auto. Qed.
+
+Lemma fail_obs_dead ws : Forall dead_w ws -> fail_obs ws = [].
+Proof. induction ws as [|[x a] r IH]; cbn; intros F; auto. inversion F as [|? ? Hd Hr]; subst. unfold dead_w in Hd; cbn in Hd; subst a. cbn. auto. Qed.
+
+Lemma kill_dead ws : Forall dead_w (kill ws).
+Proof. induction ws; cbn; constructor; auto. reflexivity. Qed.
+
+Lemma ss_nodup l : StronglySorted Z.lt l -> NoDup l.
+Proof.
+  induction l as [|x l IH]; intros S; [constructor|]. apply StronglySorted_inv in S as [S F]. constructor; auto.
+  intros H. rewrite Forall_forall in F. apply F in H. lia.
+Qed.
+
+(* ---- one-step facts: FIFO and exclusive lending ------------------------------------------------------ *)
+Lemma rel_not_fwd l c s : Forall rel_ob l -> ~ In (OForward c s) l.
+Proof. intros F H. rewrite Forall_forall in F. apply F in H. exact H. Qed.
+
+Lemma get_not_fwd l c s : Forall get_ob l -> ~ In (OForward c s) l.
+Proof. intros F H. rewrite Forall_forall in F. apply F in H. exact H. Qed.
+
+Lemma fifo_step cf st tr k st' ob c s :
+  Inv cf [] st tr -> step cf st (PQ k) = (st', ob) -> In (OForward c s) ob ->
+  ob = [OForward c s] /\ In (c, true) (waiters st) /\ (forall c', In (c', true) (waiters st) -> c <= c') /\
+  (forall w, In w (waiters st') -> c < fst w).
+Proof.
+  intros [_ [_ _ _ R4 _ _]] H Hi. cbn [step] in H.
+  destruct (extract_nth k (pq st)) as [[s0 pq']|]. 2:{ inversion H; subst. contradiction. }
+  unfold process_queue in H. sset.
+  destruct (waiters st) as [|w0 ws0] eqn:E0.
+  { pose proof (release_obs cf s0 (set_pq pq' st)) as Ro. rewrite H in Ro. now apply (rel_not_fwd _ c s) in Ro. }
+  rewrite <- E0 in *. pose proof (pq_loop_spec (waiters st)) as S. destruct (pq_loop (waiters st)) as [[c0|] ws'].
+  2:{ pose proof (release_obs cf s0 (set_gq (zlen ws') (set_waiters ws' (set_pq pq' st)))) as Ro. rewrite H in Ro.
+      now apply (rel_not_fwd _ c s) in Ro. }
+  destruct S as (pre & E & F & _). inversion H; subst st' ob; clear H. sset.
+  destruct Hi as [Hi|[]]. inversion Hi; subst c0 s0; clear Hi.
+  rewrite E, map_app in R4. apply ss_app_r in R4. cbn [map fst] in R4. apply StronglySorted_inv in R4 as [_ Fc].
+  rewrite Forall_forall in Fc.
+  splits; auto.
+  - rewrite E. apply in_or_app. right. now left.
+  - intros c' Hc. rewrite E in Hc. apply in_app_or in Hc as [Hc|[Hc|Hc]].
+    + rewrite Forall_forall in F. apply F in Hc. discriminate.
+    + inversion Hc. lia.
+    + assert (c < c') by (apply Fc; apply in_map_iff; exists (c', true); auto). lia.
+  - intros w Hw. apply Fc. now apply in_map.
+Qed.
+
+Lemma nodup_app_disj {A} (a b : list A) x : NoDup (a ++ b) -> In x a -> ~ In x b.
+Proof.
+  induction a as [|y a IH]; cbn; intros N Ha Hb; [contradiction|]. inversion N; subst. destruct Ha as [->|Ha].
+  - apply H1. apply in_or_app. now right.
+  - now apply (IH H2 Ha).
+Qed.
+
+Lemma not_lent_if_elsewhere st s :
+  NoDup (held st) -> In s (cache st ++ map fst (opening st) ++ pq st) -> ~ In s (map fst (lent st)).
+Proof. unfold held. intros N Hi Hl. now apply (nodup_app_disj _ _ s N Hl). Qed.
+
+Lemma forward_fresh cf st tr l st' ob c s :
+  Inv cf [] st tr -> step cf st l = (st', ob) -> In (OForward c s) ob ->
+  ~ In s (map fst (lent st)) /\ In (s, c) (lent st').
+Proof.
+  intros I H Hi. pose proof I as [[_ N _ _ _] _]. cbn [app] in N.
+  destruct l as [|s1|c1|c1|k|s1 v| |]; cbn [step] in H.
+  - set (st0 := set_ncall (ncall st + 1) st) in *.
+    assert (I0 : Inv cf [] st0 tr).
+    { destruct I as [C [R1 R2 R3 R4 R5 R6]]. split.
+      - apply (core_same [] st tr); subst st0; sset; auto using incl_refl.
+      - subst st0. constructor; sset; auto. eapply Forall_impl; [|exact R5]. cbn. intros. lia. }
+    destruct (get cf (Some (ncall st)) st0) as [[g st1] ob1] eqn:Eg.
+    destruct (get_inv _ _ _ _ _ _ _ Eg I0) as (_ & _ & _ & El & _ & G).
+    destruct (get_obs _ _ _ _ _ _ Eg) as (Go & _ & _).
+    destruct g as [s2| | |]; inversion H; subst st' ob; clear H.
+    + apply in_app_or in Hi as [Hi|[Hi|[]]]; [now apply get_not_fwd in Hi|]. inversion Hi; subst c s2; clear Hi.
+      destruct G as (_ & _ & Hc). subst st0; sset. split.
+      * apply not_lent_if_elsewhere; auto. apply in_or_app. now left.
+      * apply in_or_app. right. now left.
+    + now apply get_not_fwd in Hi.
+    + now apply get_not_fwd in Hi.
+    + apply in_app_or in Hi as [Hi|[Hi|[]]]; [now apply get_not_fwd in Hi|discriminate].
+  - destruct (extract _ (opening st)) as [[[s' who] op']|] eqn:Ex. 2:{ inversion H; subst. contradiction. }
+    destruct (extract_spec _ _ _ _ Ex) as (l1 & l2 & E1 & E2 & Ps & _). cbn in Ps. apply Z.eqb_eq in Ps. subst s'.
+    destruct who as [c2|].
+    + inversion H; subst st' ob; clear H. destruct Hi as [Hi|[]]. inversion Hi; subst c2 s1; clear Hi. sset. split.
+      * apply not_lent_if_elsewhere; auto. apply in_or_app. right. apply in_or_app. left.
+        rewrite E1, map_app. apply in_or_app. right. now left.
+      * apply in_or_app. right. now left.
+    + pose proof (release_obs cf s1 (set_opening op' st)) as Ro.
+      destruct (release cf s1 (set_opening op' st)) as [st2 ob2].
+      unfold open_result in H. destruct (pstate st2 =? 4); inversion H; subst st' ob; clear H;
+        (apply in_app_or in Hi as [Hi|[Hi|[]]]; [now apply (rel_not_fwd _ c s) in Ro|discriminate]).
+  - destruct (extract _ (lent st)) as [[[s2 c'] le']|]. 2:{ inversion H; subst. contradiction. }
+    pose proof (release_obs cf s2 (set_lent le' st)) as Ro.
+    destruct (release cf s2 (set_lent le' st)) as [st1 ob1]. inversion H; subst st' ob; clear H.
+    apply in_app_or in Hi as [Hi|[Hi|[]]]; [now apply (rel_not_fwd _ c s) in Ro|discriminate].
+  - destruct (existsb _ (waiters st)); inversion H; subst; cbn in Hi; intuition discriminate.
+  - destruct (fifo_step _ _ _ _ _ _ _ _ I H Hi) as (Eo & _).
+    cbn [step] in H. destruct (extract_nth k (pq st)) as [[s0 pq']|] eqn:Ex. 2:{ inversion H; subst. discriminate. }
+    destruct (extract_nth_spec _ _ _ _ Ex) as (l1 & l2 & E1 & E2 & _).
+    unfold process_queue in H. sset.
+    destruct (waiters st) as [|w0 ws0] eqn:E0.
+    { pose proof (release_obs cf s0 (set_pq pq' st)) as Ro. rewrite H in Ro. now apply (rel_not_fwd _ c s) in Ro. }
+    rewrite <- E0 in *. destruct (pq_loop (waiters st)) as [[c0|] ws'].
+    2:{ pose proof (release_obs cf s0 (set_gq (zlen ws') (set_waiters ws' (set_pq pq' st)))) as Ro. rewrite H in Ro.
+        now apply (rel_not_fwd _ c s) in Ro. }
+    rewrite Eo in H. clear Eo. inversion H; subst st' c0 s0; clear H. sset. split.
+    + apply not_lent_if_elsewhere; auto. apply in_or_app. right. apply in_or_app. right. rewrite E1.
+      apply in_or_app. right. now left.
+    + apply in_or_app. right. now left.
+  - inversion H; subst. contradiction.
+  - pose proof (close_pool_obs st) as Ho. rewrite H in Ho. cbn in Ho. subst ob. apply in_app_or in Hi as [Hi|Hi].
+    + apply in_map_iff in Hi as (x & E & _). discriminate.
+    + now apply (rel_not_fwd _ c s (fail_obs_kind (waiters st))) in Hi.
+  - destruct (get cf None st) as [[g st1] ob1] eqn:Eg.
+    destruct (get_obs _ _ _ _ _ _ Eg) as (Go & _ & _).
+    destruct g as [s2| | |].
+    + pose proof (release_obs cf s2 st1) as Ro. destruct (release cf s2 st1) as [st2 ob2].
+      unfold open_result in H. destruct (pstate st2 =? 4); inversion H; subst st' ob; clear H;
+        (apply in_app_or in Hi as [Hi|Hi]; [now apply get_not_fwd in Hi|];
+         apply in_app_or in Hi as [Hi|[Hi|[]]]; [now apply (rel_not_fwd _ c s) in Ro|discriminate]).
+    + inversion H; subst. now apply get_not_fwd in Hi.
+    + unfold open_result in H. destruct (pstate (release_noop st1) =? 4); inversion H; subst st' ob; clear H;
+        (apply in_app_or in Hi as [Hi|[Hi|[]]]; [now apply get_not_fwd in Hi|discriminate]).
+    + unfold open_result in H. destruct (pstate (release_noop st1) =? 4); inversion H; subst st' ob; clear H;
+        (apply in_app_or in Hi as [Hi|[Hi|[]]]; [now apply get_not_fwd in Hi|discriminate]).
 Qed.
